@@ -286,7 +286,7 @@ def st_steered_stack(files):
     delta = st.sampled_from([1e-5, 1e-4, 1e-3, 1e-2, 0.1, 1.0])
     return st.fixed_dictionaries({
         "kind": st.just("steered-stack"), "file": st.sampled_from(files), "r1": st.integers(0, 10 ** 6), "r2": st.integers(0, 10 ** 6),
-        "mode": st.sampled_from(["normals", "offset", "distance"]), "delta": delta, "side": st.sampled_from([-1, 1]),
+        "mode": st.sampled_from(["normals", "offset", "distance", "copy"]), "delta": delta, "side": st.sampled_from([-1, 1]),
         "antiparallel": st.booleans(), "spin": st.floats(0, 360), "azimuth": st.floats(0, 360),
         "first_is_reference": st.booleans()})
 
@@ -302,6 +302,10 @@ def build_steered_stack(case):
         i2 = idx[(case["r2"] + 1) % len(idx)]
     i1, i2 = sorted((i1, i2))  # i1 is the earlier residue of the structure
     rr = {r.idx: r for r in geomref.from_structure3d(s3)}
+    if case["mode"] == "copy":
+        # a translated copy of one residue stacked on the original: the two normals are parallel to the last bit
+        # (or antiparallel when the copy is flipped), as in models assembled from repeated units
+        return _translated_copy(s3, rr[i1], case)
     A, B = rr[i1], rr[i2]
     # which of the two is kept in place (reference) and which is moved
     ref, mov = (A, B) if case["first_is_reference"] else (B, A)
@@ -495,3 +499,32 @@ def _steer_angle(s3, rr, i, j, case, info):
     if info is not None:
         info["steer_skipped"] = True
     return rebuild(s3, keep={i, j})
+
+
+def _translated_copy(s3, ref, case):
+    from rnapolis.common import ResidueAuth
+    from rnapolis.tertiary import Atom, Residue3D, Structure3D
+
+    n = geomref.normal(ref)
+    n = n / np.linalg.norm(n)
+    a2 = _rot_about(n, case["azimuth"]) @ _perp(n)
+    phi = 10.0 + 30.0 * (case["spin"] / 360.0)  # offset angle 10..40 deg: clearly a stacking
+    v = np.cos(np.radians(phi)) * n + np.sin(np.radians(phi)) * a2
+    # the later->earlier centroid vector must be +3.6 v: the copy sits at -3.6 v when it is listed second
+    shift = (-3.6 if case["first_is_reference"] else 3.6) * v
+    r = s3.residues[ref.idx]
+    flip = None
+    if case["antiparallel"]:
+        c = geomref.centroid(ref)
+        flip = (_rot_about(a2, 180.0), c)
+    auth = ResidueAuth("Z", r.number, None, r.name)
+    atoms = []
+    for a in r.atoms:
+        xyz = np.array([a.x, a.y, a.z])
+        if flip is not None:
+            xyz = flip[0] @ (xyz - flip[1]) + flip[1]
+        xyz = xyz + shift
+        atoms.append(Atom(a.entity_id, None, auth, a.model, a.name, float(xyz[0]), float(xyz[1]), float(xyz[2]), a.occupancy))
+    r2 = Residue3D(None, auth, r.model, r.one_letter_name, tuple(atoms))
+    first = Residue3D(r.label, r.auth, r.model, r.one_letter_name, r.atoms)
+    return Structure3D([first, r2] if case["first_is_reference"] else [r2, first])
